@@ -6,6 +6,7 @@ for s in "$@"; do
   p=${s%%:*}; x=${s##*:}
   [ -f /tmp/seed-$p/$x.patch.diff ] || { echo "{\"seed\":\"$s\",\"error\":\"missing\"}" >> work/seed-results.jsonl; continue; }
   v=$(python3 tools/verify_seed.py /tmp/seed-$p $x 2>/dev/null | tail -1)
-  t=$(python3 tools/try_seed.py /tmp/seed-$p/$x.patch.diff $p 2>/dev/null | tail -1)
+  prop=$(echo $p | cut -c1-3)
+  t=$(python3 tools/try_seed.py /tmp/seed-$p/$x.patch.diff $prop 2>/dev/null | tail -1)
   echo "{\"seed\":\"$s\",\"verify\":$v,\"check\":$t}" >> work/seed-results.jsonl
 done
